@@ -125,7 +125,9 @@ def c05(model, n):
         # (mu'_k - mu_k) sigma_k2^2 == (mu'_k2 - mu_k2) sigma_k^2
         t0 = time.time()
         okd = True
-        for i in range(n):
+        if run.ctx.split_roots:
+            recs.append(_not_attempted("C05", model, shape, "the per-member loop branches on a member's values: two members need not share one result term"))
+        for i in ([] if run.ctx.split_roots else range(n)):
             sub = run.second_member(i)
             with active(run.ctx):
                 dk = term(post[i][0][0] - run.prior[i][0][0])
@@ -133,7 +135,8 @@ def c05(model, n):
             dk2, sgk2 = z3.substitute(dk, *sub), z3.substitute(sgk, *sub)
             P2 = run.prover()
             okd = okd and P2.prove_eq(dk * sgk2 * sgk2, dk2 * sgk * sgk)[0]
-        recs.append(field_rec(f"C05/{model}/_compute/any-team-size/same-direction@{shape}", okd, "field", "", time.time() - t0, fn, shape, rp))
+        if not run.ctx.split_roots:
+            recs.append(field_rec(f"C05/{model}/_compute/any-team-size/same-direction@{shape}", okd, "field", "", time.time() - t0, fn, shape, rp))
         P = run.prover()
         SP = signs.SignProver(run.hyps, run.facts)
 
@@ -202,9 +205,9 @@ def c07(model, n, gamma_mode):
                     total = run.teams[i].sum_of(post[i][0][0] - run.prior[i][0][0])
                     T = T + total / run.teams[i].s
         except UncutLoop as e:
-            # the member-wise change is not of the form the linearity rule closes
-            recs.append(driver.rec(f"C07/{model}/_compute/any-team-size/team-total-by-linearity@{shape}", "open", "field", 0, fn=fn, shape=shape, mode="R",
-                                   note=str(e)[:200], replay=rp))
+            # the member-wise change is not of a form the linearity rule closes (or the members took
+            # different branches): the for-every-size proof is not attempted, the listed sizes decide
+            recs.append(_not_attempted("C07", model, shape, str(e)[:200]))
             continue
         run.hyps = list(run.rec.pc) + list(run._assumptions())
         P = run.prover()
